@@ -307,6 +307,13 @@ def drive_c14(ctx):
     for key, cls in items:
         slots = list(cls.__slots__)
         try:
+            first = cls()
+            for a in slots:          # in-place changes to the first instance's containers must not reach a later default
+                x = getattr(first, a, None)
+                if isinstance(x, dict):
+                    x['x-verif'] = 1
+                elif isinstance(x, list):
+                    x.append('x-verif')
             o = cls()
             defaults = []
             for a in slots:
